@@ -349,6 +349,7 @@ type Exec struct {
 	frameChk     bool
 	pendingForks []*State          // alternative paths created by "cases" clauses
 	defs         map[string]string // define-fun name -> definition (to see through names when a function value is loaded)
+	freeRefs     []T               // cells of the captured variables of a function literal verified on its own
 }
 
 var splitGoals bool
@@ -811,6 +812,15 @@ func (ex *Exec) paramNames(fn *ssa.Function, ct *Contract) []string {
 
 // VerifyFunction generates the obligations of one function under contract.
 func VerifyFunction(c *Ctx, fn *ssa.Function, ct *Contract, want func(string, []string) bool) (ex *Exec) {
+	if ct != nil {
+		if eff, err := effectiveContract(c, ct); err != nil {
+			ex = &Exec{c: c, fn: fn, key: funcKey(fn), contract: ct, infos: map[*ssa.Function]*FuncInfo{}, assumed: map[string]string{}}
+			ex.problems = append(ex.problems, "contract error: "+err.Error())
+			return ex
+		} else {
+			ct = eff
+		}
+	}
 	ex = &Exec{c: c, fn: fn, key: funcKey(fn), contract: ct, infos: map[*ssa.Function]*FuncInfo{}, assumed: map[string]string{}, maxPaths: 4000, want: want, frameChk: true}
 	defer func() {
 		if r := recover(); r != nil {
@@ -838,8 +848,13 @@ func VerifyFunction(c *Ctx, fn *ssa.Function, ct *Contract, want func(string, []
 		fr.args = append(fr.args, v)
 	}
 	for _, fv := range fn.FreeVars {
-		// a closure verified on its own: free variables are pointers to unknown cells
+		// a closure verified on its own: free variables are pointers to unknown (existing, pairwise different) cells
 		v := ex.freshTyped(st, "fv_"+fv.Name(), fv.Type())
+		st.assume(Not(Eq(v, Nil)))
+		for _, o := range ex.freeRefs {
+			st.assume(Not(Eq(v, o)))
+		}
+		ex.freeRefs = append(ex.freeRefs, v)
 		fr.vals[fv] = v
 	}
 	st.frames = []*Frame{fr}
@@ -880,6 +895,10 @@ func VerifyFunction(c *Ctx, fn *ssa.Function, ct *Contract, want func(string, []
 	if ct != nil {
 		for _, r := range ct.Requires {
 			st.assume(ev.Bool(r.E))
+		}
+		for _, r := range ct.Captured {
+			st.assume(ev.Bool(r.E))
+			ex.assumed["captured:"+shortKey(c, ct.Key)+":"+r.Label] = "fact about captured variables, proved where the function literal is passed to its callee"
 		}
 	}
 	if fn.Pkg != nil {
@@ -931,6 +950,30 @@ func (ex *Exec) contractEnv(st *State, fn *ssa.Function, ct *Contract, args []Va
 				ev.vars[names[i]] = SV{T: ex.term(st, args[i]), Ty: goTy(ex.c, p.Type())}
 			}
 		}
+		// captured variables of a function literal verified on its own, under their source names
+		if len(fn.FreeVars) > 0 {
+			var ff *Frame
+			for i := len(st.frames) - 1; i >= 0; i-- {
+				if st.frames[i].fn == fn {
+					ff = st.frames[i]
+					break
+				}
+			}
+			if ff != nil {
+				for _, fv := range fn.FreeVars {
+					if _, taken := ev.vars[fv.Name()]; taken {
+						continue
+					}
+					pt, ok := under(fv.Type()).(*types.Pointer)
+					if !ok {
+						continue
+					}
+					if sv, ok := ex.capturedValue(st, ff.vals[fv], pt.Elem(), view); ok {
+						ev.vars[fv.Name()] = sv
+					}
+				}
+			}
+		}
 		results := fn.Signature.Results()
 		for i := 0; i < results.Len() && i < len(res); i++ {
 			n := results.At(i).Name()
@@ -947,6 +990,31 @@ func (ex *Exec) contractEnv(st *State, fn *ssa.Function, ct *Contract, args []Va
 		o := *ev
 		o.view = old
 		o.old = nil
+		// captured variables of a function literal have their entry values in the old state
+		if fn != nil && len(fn.FreeVars) > 0 {
+			o.vars = map[string]SV{}
+			for k, v := range ev.vars {
+				o.vars[k] = v
+			}
+			var ff *Frame
+			for i := len(st.frames) - 1; i >= 0; i-- {
+				if st.frames[i].fn == fn {
+					ff = st.frames[i]
+					break
+				}
+			}
+			if ff != nil {
+				for _, fv := range fn.FreeVars {
+					if pt, ok := under(fv.Type()).(*types.Pointer); ok {
+						if sv, ok := ex.capturedValue(st, ff.vals[fv], pt.Elem(), old); ok {
+							if cur, has := ev.vars[fv.Name()]; has && cur.Ty != nil && sv.Ty != nil && cur.T.Sort == sv.T.Sort {
+								o.vars[fv.Name()] = sv
+							}
+						}
+					}
+				}
+			}
+		}
 		ev.old = &o
 	}
 	return ev
@@ -1113,19 +1181,27 @@ func (ex *Exec) localByName(st *State, fr *Frame, name string) (SV, bool) {
 				}
 			}
 		}
-		if len(live) != 1 {
+		if len(live) > 1 {
 			sfail("local %q is ambiguous in %s (%d declarations); write %s#k", name, fr.fn.Name(), len(as), name)
 		}
-		as = live
+		if len(live) == 1 {
+			as = live
+		}
 		ord = 0
 	}
 	a := as[ord]
+	et := a.Type().(*types.Pointer).Elem()
 	pv, ok := fr.vals[a]
 	if !ok {
-		return SV{}, false
+		// declared in the function but not reached on this path: the clause has to hold for any value of it
+		return SV{T: ex.freshTyped(st, "notlive_"+base, et), Ty: goTy(ex.c, et)}, true
 	}
 	p := pv.(*Ptr)
-	et := a.Type().(*types.Pointer).Elem()
+	if p.Kind == PCell {
+		if _, has := ex.cellFrame(st, p.Cell).cells[p.Cell]; !has {
+			return SV{T: ex.freshTyped(st, "notlive_"+base, et), Ty: goTy(ex.c, et)}, true
+		}
+	}
 	return SV{T: ex.load(st, p), Ty: goTy(ex.c, et)}, true
 }
 
@@ -2086,4 +2162,57 @@ func (ex *Exec) pointeeType(p *Ptr) types.Type {
 		}
 	}
 	return t
+}
+
+// effectiveContract: a function literal whose contract says "implements self <funcspec>" is verified against that
+// funcspec (its requires, ensures and modifies come first) plus its own clauses; parameter and result names must be
+// the funcspec's.
+func effectiveContract(c *Ctx, ct *Contract) (*Contract, error) {
+	spec, ok := ct.Implements["self"]
+	if !ok {
+		return ct, nil
+	}
+	sp := c.Specs.Contracts[ct.PkgPath+"."+spec]
+	if sp == nil {
+		return nil, fmt.Errorf("funcspec %s not found", spec)
+	}
+	if strings.Join(sp.ParamNames, ",") != strings.Join(ct.ParamNames, ",") || strings.Join(sp.ResultNames, ",") != strings.Join(ct.ResultNames, ",") {
+		return nil, fmt.Errorf("function literal %s must use the parameter and result names of funcspec %s", ct.Key, spec)
+	}
+	eff := *ct
+	eff.Requires = append(append([]*Clause(nil), sp.Requires...), ct.Requires...)
+	eff.Ensures = append(append([]*Clause(nil), sp.Ensures...), ct.Ensures...)
+	eff.Modifies = append(append([]*Clause(nil), sp.Modifies...), ct.Modifies...)
+	// the two-state facts about assigned captured variables are postconditions of the literal's body
+	eff.Ensures = append(eff.Ensures, ct.CapturedPost...)
+	if len(eff.Tags) == 0 {
+		eff.Tags = sp.Tags
+	}
+	return &eff, nil
+}
+
+// capturedValue reads the current content of a captured variable (v is the pointer the literal holds) in a view.
+func (ex *Exec) capturedValue(st *State, v Val, elem types.Type, view HeapView) (SV, bool) {
+	switch p := v.(type) {
+	case T:
+		// pointer to a heap cell (escaping variable): a box, a struct object or an array
+		switch under(elem).(type) {
+		case *types.Struct, *types.Array:
+			return SV{}, false
+		}
+		hn, hs := ex.c.BoxHeap(ex.c.SortOf(elem))
+		return SV{T: Select(view.Heap(hn, hs), p), Ty: goTy(ex.c, elem)}, true
+	case *Ptr:
+		if p.Kind == PBox && len(p.Path) == 0 {
+			hn, hs := ex.c.BoxHeap(ex.c.SortOf(p.Base))
+			return SV{T: Select(view.Heap(hn, hs), p.Ref), Ty: goTy(ex.c, elem)}, true
+		}
+		if p.Kind == PCell && len(p.Path) == 0 {
+			fr := ex.cellFrame(st, p.Cell)
+			if t, ok := fr.cells[p.Cell]; ok {
+				return SV{T: t, Ty: goTy(ex.c, elem)}, true
+			}
+		}
+	}
+	return SV{}, false
 }
